@@ -230,7 +230,7 @@ func genKey(r *kit.Rng) string {
 
 var envPool = []string{"prod", "staging", "dev", "my env", "ünï", "ds1", ""}
 var dsPool = []string{"ds1", "ds2", "a.b", "prod", "b", "my ds", "\xff\xfe", "dev"}
-var prefixPool = []string{"", "", "pfx", "a", "my pfx", "p.q", "prod"}
+var prefixPool = []string{"", "", "pfx", "a", "P2", "prod", "ds1"} // validation: purely alphanumeric
 var plainFields = []string{"f1", "f2", "f3", "http.status", "meta.custom", "r", "rootx", "é"}
 var idish = []string{"trace.parent_id", "trace.trace_id", "parentId", "traceId"}
 
@@ -483,12 +483,12 @@ func (comp) Gen(r *kit.Rng, maxLen int, tier string) kit.Case {
 		}
 		return pick(r, envPool)
 	}
-	tidPool := []string{"t1", "t2", "t3", "t4"}
 	type openT struct {
 		key, env, ds string
 	}
 	open := map[string]openT{}
 	var openOrder []string
+	nextTid := 0
 	for i := 0; i < n; i++ {
 		switch r.Pick(24, 14, 10, 38, 14) {
 		case 0:
@@ -502,9 +502,17 @@ func (comp) Gen(r *kit.Rng, maxLen int, tier string) kit.Case {
 				ops = append(ops, "lookup "+kit.Enc(name()))
 				continue
 			}
-			tid := pick(r, tidPool)
+			// a span of an open trace, or the first span of a new one (ids are never reused: a span
+			// for an already decided trace is a late span, which is not part of this property)
+			var tid string
+			if len(openOrder) > 0 && r.Chance(60) {
+				tid = openOrder[r.Intn(len(openOrder))]
+			} else {
+				nextTid++
+				tid = fmt.Sprintf("t%d", nextTid)
+			}
 			var key, env, ds string
-			if o, ok := open[tid]; ok && r.Chance(90) {
+			if o, ok := open[tid]; ok && r.Chance(92) {
 				key, env, ds = o.key, o.env, o.ds // spans of one trace normally come with one key / dataset
 				if r.Chance(4) {
 					ds = dataset()
@@ -534,7 +542,7 @@ func (comp) Gen(r *kit.Rng, maxLen int, tier string) kit.Case {
 			ops = append(ops, fmt.Sprintf("span %s %s %s %s %s", path, kit.Enc(key), envTok, kit.Enc(ds), encPayload(pl)))
 		default:
 			if len(openOrder) == 0 {
-				ops = append(ops, "decide "+kit.Enc(pick(r, tidPool)))
+				ops = append(ops, "decide t0")
 				continue
 			}
 			j := r.Intn(len(openOrder))
@@ -563,12 +571,12 @@ type runner struct {
 	peer    *transmit.MockTransmission
 	sf      *sample.SamplerFactory
 	worker  *collect.CollectorWorker
-	payload map[*types.Span][]payEntry
+	decided map[string]bool
 }
 
 func (comp) NewCase(h []string) kit.Runner {
 	c := parseHeader(h)
-	r := &runner{c: c, payload: map[*types.Span][]payEntry{}}
+	r := &runner{c: c, decided: map[string]bool{}}
 	cfg, err := config.VerifSamplerselNewFileConfig(c.mainYAML(), c.rulesYAML(), !c.validate)
 	if cfg == nil {
 		r.cfgErr = "cfgerror " + kit.Enc(fmt.Sprint(err))
@@ -792,16 +800,19 @@ func (r *runner) Do(op []string) (string, bool) {
 			return what, true
 		}
 		memo, missing := types.VerifSamplerselMemo(&sp.Data)
-		obs := fmt.Sprintf("span tid=%s root=%s key=%s env=%s ds=%s memo=%s missing=%s", kit.Enc(sp.TraceID), b01(sp.IsRoot),
-			kit.Enc(sp.APIKey), kit.Enc(sp.Environment), kit.Enc(sp.Dataset), encList(memo), encList(sortedUnique(missing)))
-		r.payload[sp] = decPayload(op[5])
-		collect.VerifSamplerselProcess(r.worker, sp)
+		late := r.decided[sp.TraceID]
+		obs := fmt.Sprintf("span tid=%s root=%s key=%s env=%s ds=%s memo=%s missing=%s late=%s", kit.Enc(sp.TraceID), b01(sp.IsRoot),
+			kit.Enc(sp.APIKey), kit.Enc(sp.Environment), kit.Enc(sp.Dataset), encList(memo), encList(sortedUnique(missing)), b01(late))
+		if !late { // late spans go to the sent-trace path, which is not exercised here
+			collect.VerifSamplerselProcess(r.worker, sp)
+		}
 		return obs, true
 	case "decide":
 		d := collect.VerifSamplerselDecide(r.worker, kit.Dec(op[1]))
 		if !d.Found {
 			return "notrace", true
 		}
+		r.decided[kit.Dec(op[1])] = true
 		kit.Ext("samplekey = %s", kit.Enc(d.SampleKey))
 		var per []string
 		for _, sp := range d.Trace.GetSpans() {
